@@ -110,6 +110,29 @@ func distinctMemberLoop(c *core.Ctx, rule string, fn *ssa.Function, isKeys, isPe
 		k, isk := ir.ConstBool(mu.Value)
 		return isk && k
 	})
+	// the used-set lives across iterations: it is allocated before the loop, not inside it (a set
+	// re-created per key never sees a repeat)
+	{
+		var sets []*ssa.MakeMap
+		for _, b := range host.Blocks {
+			for _, in := range b.Instrs {
+				if mu, ok := in.(*ssa.MapUpdate); ok && isCallTo(mu.Key, pid) {
+					if mk, isMk := ir.Strip(mu.Map).(*ssa.MakeMap); isMk {
+						sets = append(sets, mk)
+					}
+				}
+			}
+		}
+		r := ir.NewReach(host)
+		r.RunFromBlock(lp.Body)
+		okOutside := len(sets) > 0
+		for _, mk := range sets {
+			if r.Instr(mk) {
+				okOutside = false
+			}
+		}
+		c.Decide(okOutside, rule, host, "the set of keys already seen is created once, before the loop over the keys", c.P.Rel(lp.Cond.Pos()), "")
+	}
 	// the sinks are reached only after the loop's normal exit
 	bodyIdx := indexOfSucc(lp.Header, lp.Body)
 	if hostCall == nil {
